@@ -3,6 +3,7 @@ import json
 import sys
 import os
 import random
+import re
 import time
 import traceback
 
@@ -377,6 +378,7 @@ def tie_real(ctx, runs, label='solve-real'):
         'translator_unsupported_constructs': len(unsupported),
         'rule': 'demand-driven random scenarios over the shipped forms of 2021-2023 (statuses, 0-3 payer forms, itemizing, dependents, HSA, NC, gates); the recorded answers are replayed through the Lean solver model with the translated programs; non-trivial = more than 50 lines valued',
         'samples': [{'year': r['year'], 'forms': r['forms'], 'kind': r.get('kind'), 'inputs': len(sc_inputs(r))} for r in runs[:2]]}
+    ctx.suspect_runs = sorted({int(m.group(1)) for d in dis for m in [re.search(r' case (\d+)$', str(d.get('op', '')))] if m})
     out = [{'case': i, 'protocol': ['real scenario', str(d)[:300]], 'diff': str(d)[:600]} for i, d in enumerate(dis)]
     if unsupported:
         out.append({'case': -1, 'protocol': ['translator'], 'diff': f'unsupported constructs in line definitions: {unsupported[:3]}'})
@@ -412,6 +414,9 @@ def run_C01(ctx):
 
 def finish_tie(ctx, broken, disagreements, found):
     """Broken obligations / correspondence without a failing input found by the oracles."""
+    # `found` from the callers means "the oracles produced problems"; when every one of them matched a recorded known
+    # finding nothing NEW was found, and a broken tie or proof must still be reported
+    found = found and bool(ctx.violations)
     if disagreements:
         d = disagreements[0]
         if not found:
@@ -545,7 +550,13 @@ def run_C05(ctx):
             r['kind'], r['scenario_seed'] = kind, sd
             odd.append(r)
     nreal = 0
-    for r in odd + runs[:ctx.n(25, 300)]:
+    # scenarios on which the solver model (which can only read inputs and lines) and the real code disagree are where a
+    # line may be reading something else (loaded forms, attempt history, module state): many more orders and splits there
+    suspects = [runs[k] for k in getattr(ctx, 'suspect_runs', []) if k < len(runs)][:12]
+    for r in suspects:
+        r['suspect'] = True
+    rest = [r for r in runs[:ctx.n(25, 300)] if not r.get('suspect')]
+    for r in odd + suspects + rest:
         if r['exception'] is not None and not isinstance(r['exception'], (NotImplementedError, TypeError, AssertionError)):
             continue
         rng = random.Random(f'{ctx.seed}/c05-real/{r["scenario_seed"]}')
@@ -556,7 +567,7 @@ def run_C05(ctx):
         if r['exception'] is None and so.signature(r)[:6] != base[:6]:
             bad.append(('scenario', scenario_replay(r), 'file-vs-prompt: ' + so.describe_diff(so.signature(r), base)))
         tests = []
-        for j in range(ctx.n(2, 5)):
+        for j in range(ctx.n(2, 5) if not r.get('suspect') else 16):
             tests.append((f'schedule {j}', lambda j=j: so.rerun_with(r, schedule=so.hash_schedule(f'{ctx.seed}/{j}'), file_inputs=inputs)))
         if len(r['forms']) > 1:
             tests.append(('request order', lambda: so.rerun_with(r, forms=list(reversed(r['forms'])), file_inputs=inputs)))
@@ -564,18 +575,32 @@ def run_C05(ctx):
         keys = sorted(inputs)
         half = {k: inputs[k] for k in keys if rng.random() < 0.5}
         split_policy = so.FixedPolicy(inputs)
-        tests.append(('file/prompt split', lambda: so.rerun_with(r, file_inputs=half, policy=split_policy)))
+        tests.append(('file/prompt split', lambda: (split_policy.refused.clear(), so.rerun_with(r, file_inputs=half, policy=split_policy))[1]))
+        if r.get('suspect'):
+            for j in range(6):
+                hj = {k: inputs[k] for k in keys if random.Random(f'{ctx.seed}/split/{j}/{k}').random() < 0.5}
+                tests.append(('file/prompt split', lambda hj=hj: (split_policy.refused.clear(), so.rerun_with(r, file_inputs=hj, policy=split_policy))[1]))
+        trace = so.ReadTrace()
+        with trace.install():
+            so.rerun_with(r, file_inputs=inputs)
         for label, fn in tests:
             variants += 1
-            sig = so.signature(fn())
+            with trace.install():
+                res_v = fn()
+            sig = so.signature(res_v)
             if label == 'file/prompt split' and split_policy.refused:
                 continue        # the split run needed an input the base run never supplied: not the same inputs
             if sig != base:
                 bad.append(('scenario', dict(scenario_replay(r), variant=label), f'{label}: ' + so.describe_diff(base, sig)))
+        for line, hist, a, b in trace.divergences()[:3]:
+            bad.append(('scenario', dict(scenario_replay(r), variant='read sequence', line=line, answers_so_far=[list(h) for h in hist[-6:]],
+                                         then_once=list(a), then_another_time=list(b)),
+                        f'read sequence: two evaluations of {line} received the same answers from the stores ({len(hist)} reads) and then '
+                        f'did different things: {a} vs {b} -- the line consults something other than inputs and lines'))
         checked += 1
     ctx.statement['c05-independence'] = {
         'checked': checked, 'variants_run': variants, 'violations': len(bad), 'distinct_nontrivial': nreal,
-        'rule': 'each case is solved under the natural order and under further schedules (hook), reversed request, re-laid-out input file (shuffled sections/keys, spacing, comments, key case) and a random file/prompt split; all result signatures must be equal; non-trivial = shipped-form scenario',
+        'rule': 'each case is solved under the natural order and under further schedules (hook), reversed request, re-laid-out input file (shuffled sections/keys, spacing, comments, key case) and a random file/prompt split; all result signatures must be equal, and over all these solves any two evaluations of one line that got the same answers from the stores must read the same next key / return the same value (read-sequence determinism); non-trivial = shipped-form scenario',
         'samples': [{'year': r['year'], 'forms': r['forms'], 'inputs': len(sc_inputs(r))} for r in runs[:2]]}
     for kind, rep, p in bad:
         key = 'independence:' + (p.split(':')[0] if kind == 'scenario' else 'toy')
